@@ -225,3 +225,9 @@ claim("C40", "who-may-call table + guard dominance of the state-machine transiti
       "the transition's Ok payload (or the constant locked rule set, returning the transition's bucket); the timed-confirm transition returns Ok "
       "only when compare_against_current_time(stored deadline, Gte) is true and the proposal validates; quick-confirm transitions validate the "
       "proposal; create_proof can reject a locked primary. The state machine over arbitrary interleavings is not decided.")
+
+claim("C36", "variant-arm agreement over instruction effects + rejection liveness + must-pass-through of end-of-manifest checks",
+      "Decides: handle_instruction matches every ManifestInstructionEffect with no catch-all, each arm reaching its lifecycle handler; every "
+      "effect variant is classified; the consume_* transitions can raise their not-created / already-used / locked-by-proof rejections and mark "
+      "the item consumed; invocations consume passed buckets/proofs/reservations; every ManifestValidationError variant is produced; end-of-"
+      "manifest handling precedes every successful completion and raises the dangling-item errors. Agreement with run-time behaviour is not decided.")
